@@ -540,11 +540,13 @@ func shortLabel(s string) string {
 //   A <==> B                     -> iff(A, B)
 //   forall i in lo..hi :: P      -> forall(i, lo, hi, P)   (extends to the end of the enclosing parens)
 //   exists i in lo..hi :: P      -> exists(i, lo, hi, P)
-var dollarRe = regexp.MustCompile(`\$(\w+)`)
+// $name refers to an argument of the callee in a call hook; a '$' that follows an identifier character is
+// part of a closure name (simpleFunc$1) and is left alone.
+var dollarRe = regexp.MustCompile(`(^|[^\w$])\$([A-Za-z_]\w*)`)
 
 func (cs *ContractSet) parseExpr(s string) (ast.Expr, error) {
 	g := rewriteExpr(strings.TrimSpace(s))
-	g = dollarRe.ReplaceAllString(g, "ARG_$1")
+	g = dollarRe.ReplaceAllString(g, "${1}ARG_$2")
 	e, err := parser.ParseExpr(g)
 	if err != nil {
 		return nil, fmt.Errorf("%v [rewritten: %s]", err, g)
